@@ -20,6 +20,13 @@
 (* performs it (the sum wraps).  TLC checks Iff / FirstRuleReported / Cap /*)
 (* RejectedNeverInflight / Reusable; Wrap = TRUE must violate Iff (it is   *)
 (* the design of the pinned tree: `curCount+batchCount > threshold`).      *)
+(*                                                                         *)
+(* RELOADS.  Action Reload replaces / clears rule lists in the middle of a *)
+(* history through the four entry points of the rule manager, with raw     *)
+(* lists that contain invalid rules; entries in flight survive.  It is not *)
+(* part of Next (Refine_Admit instantiates this module): Isolation_MC adds *)
+(* it with a bound, the rules the property demands (force) and the         *)
+(* invariants IffR / InForce.                                              *)
 (***************************************************************************)
 EXTENDS AdmitOps, TLC
 
@@ -87,6 +94,51 @@ Next ==
 Spec == Init /\ [][Next]_vars
 
 ---------------------------------------------------------------------------
+(* RULE LISTS REPLACED / CLEARED IN THE MIDDLE OF A HISTORY.               *)
+(* A push carries RAW rules [res, N, mt]: res = 0 stands for a rule without*)
+(* a resource name, N may be zero, mt # 0 is a metric type other than      *)
+(* Concurrency.  The module's validity predicate, transcribed:             *)
+(*        Threshold > 0, MetricType Concurrency, non-empty resource.       *)
+(* Four entry points (via):                                                *)
+(*   "all"      LoadRules(raw): the valid rules of raw replace everything  *)
+(*   "res"      LoadRulesOfResource(r, raw): the valid rules of raw that   *)
+(*              name r replace the rules of r; an empty raw clears r       *)
+(*   "clear"    ClearRulesOfResource(r)                                    *)
+(*   "clearall" ClearRules()                                               *)
+(* After every push the rules of EVERY resource are the valid rules of its *)
+(* latest push, in list order (rules of untouched resources stay in        *)
+(* force); entries in flight are not touched: they keep occupying capacity.*)
+(* Operators shared with Isolation_Trace.                                  *)
+Valid(x) == x.res # 0 /\ x.mt = 0 /\ ~UIsZero(x.N)
+Strip(s) == [i \in 1..Len(s) |-> [res |-> s[i].res, N |-> s[i].N]]
+OfRes(s, r)  == SelectSeq(s, LAMBDA x : x.res = r)
+NotRes(s, r) == SelectSeq(s, LAMBDA x : x.res # r)
+\* canonical order: by resource, list order inside a resource
+RECURSIVE ByRes(_, _)
+ByRes(s, n) == IF n = 0 THEN << >> ELSE ByRes(s, n - 1) \o OfRes(s, n)
+InForceAfter(rs, via, r, raw, n) ==
+    LET v == Strip(SelectSeq(raw, Valid)) IN
+    CASE via = "all"      -> ByRes(v, n)
+      [] via = "res"      -> ByRes(NotRes(rs, r) \o OfRes(v, r), n)
+      [] via = "clear"    -> ByRes(NotRes(rs, r), n)
+      [] via = "clearall" -> << >>
+
+\* bug = TRUE is a broken design (spec-level mutant): clearing a resource that has no valid rule uncaps all the others
+Reload(via, r, raw, bug) ==
+    /\ rules' = IF bug /\ (via = "clear" \/ (via = "res" /\ raw = << >>)) /\ RulesOf(rules, r) = {}
+                  THEN << >>
+                  ELSE InForceAfter(rules, via, r, raw, MaxOf(Res))
+    /\ last' = NoLast
+    /\ h' = Append(h, [op |-> "reload", via |-> via, r |-> r, rules |-> raw])
+    /\ UNCHANGED <<inflight, nreq>>
+
+Reloads(RL, bug) ==
+    \/ \E raw \in RL : Reload("all", 0, raw, bug)
+    \/ \E r \in Res, raw \in RL : Reload("res", r, raw, bug)
+    \/ \E r \in Res : Reload("clear", r, << >>, bug)
+    \/ Reload("clearall", 0, << >>, bug)
+
+---------------------------------------------------------------------------
 (* the property                                                            *)
 Iff               == last.ok = last.want.ok
 FirstRuleReported == (~last.ok /\ ~last.want.ok) => last.rule = last.want.rule
@@ -96,6 +148,13 @@ FirstRuleReported == (~last.ok /\ ~last.want.ok) => last.rule = last.want.rule
 ZeroSlack == IF \E b \in Batches : UIsZero(b) THEN 1 ELSE 0
 Cap == \A i \in 1..Len(rules) :
           ULeq(USmall(Cardinality(inflight[rules[i].res])), UAdd(rules[i].N, USmall(ZeroSlack)))
+
+\* with reloads an entry admitted under an earlier rule list may exceed a later, smaller N; what remains true at every
+\* step: no admission takes the in-flight count of a resource above the N of a rule in force
+CapStep == [][\A res \in Res :
+                Cardinality(inflight'[res]) > Cardinality(inflight[res]) =>
+                  \A i \in RulesOf(rules, res) :
+                     ULeq(USmall(Cardinality(inflight'[res])), UAdd(rules[i].N, USmall(ZeroSlack)))]_vars
 
 \* rejected requests never occupy capacity
 RejectedNeverInflight == [][(nreq' = nreq + 1 /\ ~last'.ok) => inflight' = inflight]_vars
